@@ -129,7 +129,7 @@ def client_requests(reg):
                     raise Inexpressible("%s.%s sent bytes brine cannot load: %r" % (cls.__name__, meth, ex))
                 if not (type(v) is tuple and len(v) == 3 and type(v[0]) is str and type(v[1]) is str and type(v[2]) is tuple):
                     raise Inexpressible("%s.%s sent %r, not (magic text, command text, args tuple)" % (cls.__name__, meth, v))
-                out.append((cls.__name__, meth, v[0], v[1], log[0]))
+                out.append((cls.__name__, meth, v[0], v[1], log[0], len(v[2])))
     finally:
         reg.socket = saved
     return out
@@ -155,8 +155,8 @@ def dump_fault_probe(reg, magic, reqs):
     the live `_work`: with dumping armed during a register only, is the register refused (a later query does not list
     it); with dumping armed during a query only, does the loop go on and answer the next query"""
     from rpyc.core import brine
-    regc = [c for _c, m, _mg, c, _d in reqs if m == "register"][0]
-    qc = [c for _c, m, _mg, c, _d in reqs if m == "discover"][0]
+    regc = [c for _c, m, _mg, c, _d, _n in reqs if m == "register"][0]
+    qc = [c for _c, m, _mg, c, _d, _n in reqs if m == "discover"][0]
     R = brine.dump((magic, regc, ((PROBE_NAME,), PROBE_PORT)))
     Q = brine.dump((magic, qc, (PROBE_NAME,)))
     saved = reg.brine
@@ -240,11 +240,11 @@ def observe_protocol(reg):
     from rpyc.core import brine
     reqs = client_requests(reg)
     table = dict(command_table(reg))
-    queries = [c for _c, m, _mg, c, _d in reqs if m == "discover"]
+    queries = [c for _c, m, _mg, c, _d, _n in reqs if m == "discover"]
     qcmd = queries[0] if queries else ("QUERY" if "query" in table else None)
     if qcmd is None:
         raise Inexpressible("no query request to probe the magic with")
-    cands = sorted(set(mg for _c, _m, mg, _cmd, _d in reqs) | module_texts(reg))
+    cands = sorted(set(mg for _c, _m, mg, _cmd, _d, _n in reqs) | module_texts(reg))
     # a query for a name nobody registered is answered (with an empty tuple) exactly when the magic is right
     replies = serve(reg, [brine.dump((mg, qcmd, ("no-such-service",))) for mg in cands])
     accepted = [mg for mg, r in zip(cands, replies) if r is not None]
@@ -253,8 +253,8 @@ def observe_protocol(reg):
                             % (len(accepted), cands[:12], accepted))
     magic = accepted[0]
     # the acknowledgement: what a well-formed register and unregister are answered with
-    regc = [c for _c, m, _mg, c, _d in reqs if m == "register"]
-    unrc = [c for _c, m, _mg, c, _d in reqs if m == "unregister"]
+    regc = [c for _c, m, _mg, c, _d, _n in reqs if m == "register"]
+    unrc = [c for _c, m, _mg, c, _d, _n in reqs if m == "unregister"]
     if not regc or not unrc:
         raise Inexpressible("the clients send no register / unregister request")
     acks = serve(reg, [brine.dump((magic, regc[0], ((PROBE_NAME,), PROBE_PORT))), brine.dump((magic, unrc[0], (PROBE_PORT,)))])
@@ -282,8 +282,9 @@ def hashability():
 
 
 def real_logger_survives(reg, magic):
-    """does the live `_work` survive its two warning paths (wrong magic, unknown command) with a real
-    logging.Logger (`Logger.warn` is deprecated and gone from 3.13 on; both calls sit outside every try)"""
+    """does the live `_work` survive its logging paths - the two warnings (wrong magic, unknown command; `Logger.warn` is
+    deprecated and gone from 3.13 on, and both calls sit outside every try) and logger.exception after a command that
+    raised - with a real logging.Logger"""
     import logging
     import warnings
     from rpyc.core import brine
@@ -291,8 +292,11 @@ def real_logger_survives(reg, magic):
     lg.addHandler(logging.NullHandler())
     with warnings.catch_warnings():
         warnings.simplefilter("ignore")
+        cmds = [n for n, _a in command_table(reg)]
         r = serve(reg, [brine.dump((magic + "?", "QUERY", ("x",))), brine.dump((magic, "no-such-command", ())),
-                        brine.dump((magic, 5, ()))], logger=lg, survive=False)
+                        brine.dump((magic, 5, ()))]
+                  + [brine.dump((magic, n, (5, 5, 5, 5, 5))) for n in cmds]          # logger.exception: the command raises
+                  + [brine.dump((magic, n, (5,))) for n in cmds], logger=lg, survive=False)
     return r is not None
 
 
@@ -310,52 +314,74 @@ def command_table(reg):
             raise Inexpressible("RegistryServer.%s%s: only plain positional parameters are modelled"
                                 % (attr, inspect.signature(fn)))
         out.append((attr[4:], len(params) - 2))
+    for cls in (reg.UDPRegistryServer, reg.TCPRegistryServer):
+        for attr in dir(cls):
+            if attr.startswith("cmd_") and getattr(cls, attr) is not getattr(reg.RegistryServer, attr, None):
+                raise Inexpressible("%s.%s differs from RegistryServer's: per-transport commands are not modelled" % (cls.__name__, attr))
     return out
 
 
 class _ProbeSock:
-    def __init__(self, data=b""):
+    """an accepted TCP connection that delivers `data` at once"""
+    def __init__(self, peer, data, on_recv=None):
+        self.peer, self.data, self.on_recv = peer, data, on_recv
         self.closed = False
-        self.data = data
+        self.sent = None
 
     def getpeername(self):
-        return ("probe", 2)
+        return self.peer
 
     def settimeout(self, t):
         pass
 
     def recv(self, n):
+        if self.on_recv:
+            self.on_recv()
         return self.data[:n]
+
+    def send(self, data):
+        self.sent = data
+        return len(data)
 
     def close(self):
         self.closed = True
 
 
-class _ProbeListener:
-    def __init__(self, sock):
-        self.s = sock
-
-    def accept(self):
-        return self.s, ("probe", 2)
-
-
-def tcp_recv_closes_unreplied(reg):
-    """run the live TCPRegistryServer._recv with one earlier, unanswered socket still tracked"""
+def tcp_recv_closes_unreplied(reg, magic, reqs):
+    """run the live TCP `_work` (real `_recv` / `_send`) over a stand-in listener: a client whose request gets no reply
+    (wrong magic), then a client with a query.  Observed at the moment the SECOND client's request is read: is the first
+    client's socket closed by then (wherever the code does it: on entering `_recv`, at the `continue`, ...)"""
+    from rpyc.core import brine
+    qc = [c for _c, m, _mg, c, _d, _n in reqs if m == "discover"][0]
+    seen = {}
+    a = _ProbeSock(("probe", 1), brine.dump((magic + "?", qc, ("x",))))
+    b = _ProbeSock(("probe", 2), brine.dump((magic, qc, ("x",))), on_recv=lambda: seen.setdefault("a_closed", a.closed))
     srv = object.__new__(reg.TCPRegistryServer)
-    stale, fresh = _ProbeSock(), _ProbeSock(b"x")
-    srv.sock = _ProbeListener(fresh)
-    srv._connected_sockets = {("probe", 1): stale}
+    queue = [a, b]
+
+    class Listener:
+        def getsockname(self):
+            return ("0.0.0.0", 0)
+
+        def accept(self):
+            if not queue:
+                srv.active = False
+                raise socket.timeout("done")
+            s = queue.pop(0)
+            return s, s.peer
+
+        def close(self):
+            pass
     try:
-        data, addr = srv._recv()
+        reg.RegistryServer.__init__(srv, Listener(), logger=_NullLogger())
+        srv._connected_sockets = {}
+        srv.active = True
+        srv._work()
     except Exception as ex:  # noqa
-        raise Inexpressible("TCPRegistryServer._recv does not run over stand-in sockets: %r" % (ex,))
-    if data != b"x" or addr != ("probe", 2) or srv._connected_sockets.get(("probe", 2)) is not fresh or fresh.closed:
-        raise Inexpressible("TCPRegistryServer._recv no longer returns (data, peer) and tracks the accepted socket")
-    still = ("probe", 1) in srv._connected_sockets
-    if still == stale.closed:
-        raise Inexpressible("TCPRegistryServer._recv: the earlier socket is %s but %s" % (
-            "still tracked" if still else "no longer tracked", "closed" if stale.closed else "not closed"))
-    return stale.closed
+        raise Inexpressible("TCPRegistryServer._work does not run over stand-in sockets: %r" % (ex,))
+    if "a_closed" not in seen or b.sent is None or not b.closed:
+        raise Inexpressible("the TCP registry did not read and answer the second of two stand-in clients")
+    return bool(seen["a_closed"])
 
 
 def gen_registry():
@@ -386,7 +412,10 @@ def gen_registry():
           "def ackReply : List Nat := " + _cps(ack), "def ackReplyText : String := " + lean_str(ack)]
     L += ["", "/-- (magic, command) of what the six real client methods send (observed on a recording socket) -/",
           "def clientRequests : List (String × String) := " + lean_list(
-              sorted(set("(%s, %s)" % (lean_str(m), lean_str(c)) for _, _, m, c, _d in reqs)), 3)]
+              sorted(set("(%s, %s)" % (lean_str(m), lean_str(c)) for _, _, m, c, _d, _n in reqs)), 3),
+          "/-- ... with the number of arguments each carries -/",
+          "def clientRequestArgs : List (String × Nat) := " + lean_list(
+              sorted(set("(%s, %d)" % (lean_str(c), n) for _, _, _m, c, _d, n in reqs)), 3)]
     hs = hashability()
     L += ["", "/-- can a value of each brine type be a dict key on the interpreter the checks run under (measured with hash()) -/"]
     for name, ok in hs:
@@ -405,9 +434,9 @@ def gen_registry():
           "", "/-- does `cmd_register` refuse an address that cannot be dumped, i.e. that no reply could carry (observed the same way,",
           "the dump failing during one register) -/",
           "def registerChecksSendable : Bool := %s" % ("true" if refuses else "false")]
-    closes = tcp_recv_closes_unreplied(reg)
-    L += ["", "/-- does `TCPRegistryServer._recv` close the sockets of earlier requests that got no reply (observed by running",
-          "the live method over stand-in sockets) -/",
+    closes = tcp_recv_closes_unreplied(reg, magic, reqs)
+    L += ["", "/-- is the socket of a TCP request that got no reply closed by the time the next client's request is read (observed",
+          "by running the live TCP `_work` over a stand-in listener with two clients) -/",
           "def tcpRecvClosesUnreplied : Bool := %s" % ("true" if closes else "false")]
     L += ["", "end Rpyc.Gen", ""]
     return "\n".join(L)
